@@ -118,6 +118,39 @@ theorem parseBlocks_final_newline (cfg : Cfg) (src : List Char)
   have hr := linesT_final _ src rfl h 0
   parseBlocks_rel shift_eq cfg hr (fuelFor_le cfg hr (by simp))
 
+
+/-! ### arbitrary sources with the same views -/
+
+theorem decompose_injective : Function.Injective Lines.decompose := by
+  intro a b h
+  simp only [Lines.decompose, Prod.mk.injEq] at h
+  rw [← List.takeWhile_append_dropWhile (p := Lines.isBlank) (l := a),
+    ← List.takeWhile_append_dropWhile (p := Lines.isBlank) (l := b), h.1, h.2.1]
+
+/-- equal views ⇒ the same lines -/
+theorem lines_of_views {s₁ s₂ : List Char} (h : Lines.views s₁ = Lines.views s₂) :
+    (linesT s₁).map Prod.fst = (linesT s₂).map Prod.fst := by
+  rw [Lines.split_views, Lines.split_views] at h
+  have h2 := Lines.map_inj_of_injective Lines.okView_injective h
+  unfold Lines.specLines at h2
+  have h3 := Lines.map_inj_of_injective decompose_injective h2
+  rw [Lines.linesT_fst, Lines.linesT_fst, h3]
+
+theorem startRel_true : ∀ (L₁ L₂ : List (List Char × List Char)) (st₁ st₂ : Nat),
+    L₁.map Prod.fst = L₂.map Prod.fst → StartRel (fun _ _ => True) st₁ st₂ L₁ L₂
+  | [], [], _, _, _ => trivial
+  | [], _ :: _, _, _, h => by simp at h
+  | _ :: _, [], _, _, h => by simp at h
+  | x :: r₁, y :: r₂, _, _, h => by
+    simp only [List.map_cons, List.cons.injEq] at h
+    exact ⟨h.1, trivial, startRel_true r₁ r₂ _ _ h.2⟩
+
+/-- two sources with the same views, at the block level (no relation between the offsets) -/
+theorem parseBlocks_views (cfg : Cfg) (s₁ s₂ : List Char) (h : Lines.views s₁ = Lines.views s₂)
+    (hf : fuelFor cfg s₁ ≤ fuelFor cfg s₂) :
+    FRel (BlocksRel (fun _ _ => True)) (parseBlocks cfg s₁) (parseBlocks cfg s₂) :=
+  parseBlocks_rel shift_true cfg (startRel_true _ _ 0 0 (lines_of_views h)) hf
+
 end MdIt.Block
 
 namespace MdIt.Pipeline
@@ -145,6 +178,26 @@ theorem eraseBList_of_nrelL {ρ : Nat → Nat → Prop} {a b : List Block.BNode}
     obtain ⟨h1, h2⟩ := h.cons_inv
     simp only [eraseBList, eraseB_of_nrel h1, eraseBList_of_nrelL h2]
 end
+
+/-- **(L1) of the OPEN block of `Props/Pipeline.lean`**: two sources with the same views give block
+    trees equal after erasing ranges and `InlineRoot` tables, the same reference map, or the same
+    panic — the second parsed with at least as much fuel, the first not exhausting its own (both
+    automatic when the sources have the same number of bytes; the model's fuel depends on `|src|`). -/
+theorem parseBlocks_same_views (cfg : Block.Cfg) (s₁ s₂ : List Char) (h : Lines.views s₁ = Lines.views s₂)
+    (hf : Block.fuelFor cfg s₁ ≤ Block.fuelFor cfg s₂) (hne : Block.parseBlocks cfg s₁ ≠ .error .fuel) :
+    match Block.parseBlocks cfg s₁, Block.parseBlocks cfg s₂ with
+    | .ok (r₁, refs₁), .ok (r₂, refs₂) => eraseB r₁ = eraseB r₂ ∧ refs₁ = refs₂
+    | .error e₁, .error e₂ => e₁ = e₂
+    | _, _ => False := by
+  rcases Block.parseBlocks_views cfg s₁ s₂ h hf with h0 | ⟨a, b, h1, h2, hk, hc, hr⟩ | ⟨e, h1, h2⟩
+  · exact absurd h0 hne
+  · obtain ⟨⟨k₁, r₁, c₁⟩, refs₁⟩ := a
+    obtain ⟨⟨k₂, r₂, c₂⟩, refs₂⟩ := b
+    simp only at hk hc hr
+    subst hk hr
+    rw [h1, h2]
+    simp only [eraseB, eraseBList_of_nrelL hc, and_self]
+  · rw [h1, h2]
 
 /-- `render` / `xrender` of a parse result -/
 def renderOf (x : Bool) (cfg : DocCfg) (r : Except Panic Node) : Except Panic (List Char) :=
@@ -376,5 +429,93 @@ theorem doc_crlf_invariant (x : Bool) (cfg : DocCfg) (src : List Char) (hsp : cf
       (inline_range_free _) t₁ t₂ ht₁ ht₂ x).symm
   · unfold renderDoc parseDoc
     rw [h1, h2]
+
+/-! ## non-vacuity, and the hypotheses that can be shown necessary -/
+
+/-- did the model run out of fuel -/
+def isFuel {α : Type} : Except Block.Panic α → Bool
+  | .error .fuel => true
+  | _ => false
+
+theorem not_fuel_of {α : Type} {r : Except Block.Panic α} (h : isFuel r = false) : r ≠ .error .fuel := by
+  intro e; rw [e] at h; cases h
+
+theorem not_inline_of {cfg : DocCfg} {src : List Char} (h : (parseDoc cfg src).toOption.isSome = true) :
+    ∀ e, parseDoc cfg src ≠ .error (.inline e) := by
+  intro e he; rw [he] at h; cases h
+
+/-- a list item with a hard break, a tab-indented continuation line, an unclosed fence (the document
+    of the evaluated instance at the end of `Props/Pipeline.lean`) -/
+def exDoc : List Char := "- a  \n\tb\n```\nc".toList
+
+/-- all hypotheses of the three theorems hold of `exDoc` (stock chain, `max_nesting = 100`) … -/
+theorem exDoc_hyps :
+    '\r' ∉ exDoc ∧ (exDoc.getLast? ≠ some '\n' ∧ exDoc.getLast? ≠ some '\r') ∧
+    Block.parseBlocks (exCfg false 100).blockCfg exDoc ≠ .error .fuel ∧
+    ∀ e, parseDoc (exCfg false 100) exDoc ≠ .error (.inline e) :=
+  ⟨by decide, by decide, not_fuel_of (by decide +kernel), not_inline_of (by decide +kernel)⟩
+
+/-- … so the theorems apply to it (the rewritten texts are what one expects) -/
+example : lfToCrlf exDoc = "- a  \r\n\tb\r\n```\r\nc".toList ∧ lfToCr exDoc = "- a  \r\tb\r```\rc".toList := by
+  decide
+
+example (x : Bool) : renderDoc x (exCfg false 100) (lfToCrlf exDoc) = renderDoc x (exCfg false 100) exDoc :=
+  doc_crlf_invariant x _ _ rfl exDoc_hyps.1 exDoc_hyps.2.2.1 exDoc_hyps.2.2.2
+
+example (x : Bool) : renderDoc x (exCfg false 100) (lfToCr exDoc) = renderDoc x (exCfg false 100) exDoc :=
+  doc_cr_invariant x _ _ rfl exDoc_hyps.1 exDoc_hyps.2.2.1
+
+example (x : Bool) : renderDoc x (exCfg false 100) (exDoc ++ ['\n']) = renderDoc x (exCfg false 100) exDoc :=
+  doc_final_newline_invariant x _ _ rfl exDoc_hyps.2.1 exDoc_hyps.2.2.1
+
+/-- the output in question is not trivial -/
+example : (renderDoc false (exCfg false 100) exDoc).toOption.map List.length = some 55 := by decide +kernel
+
+/-- `'\r' ∉ src` is needed: in `"a\r\nb"` the LF belongs to a CR LF; rewriting it gives CR CR LF, two
+    terminators, and the paragraph falls apart -/
+example : renderDoc false (exCfg false 100) (lfToCrlf "a\r\nb".toList) ≠
+    renderDoc false (exCfg false 100) "a\r\nb".toList := by decide +kernel
+
+/-- "does not end with a terminator" is needed: a second final LF is a blank line, which an unclosed
+    fence keeps (``"```\na\n"`` ↦ `a\n`, with one more LF ↦ `a\n\n`) -/
+example : renderDoc false (exCfg false 100) ("```\na\n".toList ++ ['\n']) ≠
+    renderDoc false (exCfg false 100) "```\na\n".toList := by decide +kernel
+
+/-- the block trees of the LF and the CR document are IDENTICAL below the root, ranges and per-line
+    tables included; those of the CR LF document differ from them in offsets (here: the range of the
+    second paragraph) -/
+example : (Block.parseBlocks (exCfg false 100).blockCfg "a\n\nb".toList).toOption.map (fun r => r.1.children.map (·.range)) =
+      some [some (0, 1), some (3, 4)] ∧
+    (Block.parseBlocks (exCfg false 100).blockCfg "a\r\rb".toList).toOption.map (fun r => r.1.children.map (·.range)) =
+      some [some (0, 1), some (3, 4)] ∧
+    (Block.parseBlocks (exCfg false 100).blockCfg "a\r\n\r\nb".toList).toOption.map (fun r => r.1.children.map (·.range)) =
+      some [some (0, 1), some (5, 6)] := by decide +kernel
+
+/-
+  OPEN (what separates the three theorems from hypothesis-free statements):
+
+   1. `hfuel` — fuel sufficiency of the block MODEL:
+          theorem parseBlocks_fuel (cfg : Block.Cfg) (src : List Char) : Block.parseBlocks cfg src ≠ .error .fuel
+      (`fuelFor = #lines + min max_nesting |src| + 8`).  Needed because the rewritings change `|src|`,
+      hence the fuel: `FRel` allows "side 1 out of fuel, side 2 (with more fuel) anything".  Proof plan:
+      nesting depth `≤ max_nesting + 1` by the level guard of `tokLoop` and `≤ |src| + 1` because every
+      container consumes a marker byte of its first line; every loop advances a line per iteration
+      (`Props/Block.lean`: `tokenize_progress`, `Advanced`, `bqScan_spec`, `listLoop_spec`).  Checked on
+      every run by the stream `block`.  It is a property of the model only (the Rust has no fuel).
+      With it, `doc_cr_invariant` and `doc_final_newline_invariant` are unconditional.
+
+   2. `hinl` of `doc_crlf_invariant` — equal PANICS of the inline parser on the two per-line tables:
+          parseInline icfg content m₁ = .error e → parseInline icfg content m₂ = .error e
+      for the tables `get_lines` makes of the LF / CR LF documents (same keys, values of the second
+      larger).  FALSE for arbitrary such tables: `"x  \ny"` panics (`map_end - count`, underflow) under
+      `[(0,0),(1,0),(2,0),(3,0)]` and not under `[(0,0),(1,1),(2,2),(3,3)]`
+      (`Lemmas/C10DocInline.lean`, examples).  True for `get_lines` tables needs: the translated end of
+      a trailing text is at least the number of its trailing spaces, i.e. the spaces in front of a line
+      feed lie in ONE segment of the table together with a non-blank byte of their line (no line of an
+      inline text is blank; virtual spaces of a split tab only occur at line starts, which the newline
+      rule skips) — `Props/Inline.lean` has this (`TrailOK` from `RInv`) only for `MapOK` tables, which
+      exclude split tabs.  Proved instead: the one-directional `inline_ok_transfer`.
+      With such a lemma both panics would be excluded or equal and `hinl` could go.
+-/
 
 end MdIt.Pipeline
